@@ -10,7 +10,7 @@ import (
 // VerifStepEvent is one iteration of runner.run's main loop: the tasks about to be submitted.
 type VerifStepEvent struct {
 	Path []string // node path of the (sub)graph being run, outermost first; empty for the top level
-	Step int
+	Step int      // -1: the run of this (sub)graph begins (one event per call of runner.run)
 	Keys []string // node keys of the tasks submitted in this step
 }
 
@@ -44,6 +44,21 @@ func verifTraceSubmit(ctx context.Context, step int, tasks []*task) {
 	}
 	for _, t := range tasks {
 		ev.Keys = append(ev.Keys, t.nodeKey)
+	}
+	rec.mu.Lock()
+	rec.Steps = append(rec.Steps, ev)
+	rec.mu.Unlock()
+}
+
+// verifTraceRun marks the beginning of one call of runner.run (Step = -1).
+func verifTraceRun(ctx context.Context) {
+	rec, _ := ctx.Value(verifRecKey{}).(*VerifRecorder)
+	if rec == nil {
+		return
+	}
+	ev := VerifStepEvent{Step: -1}
+	if p, ok := getNodeKey(ctx); ok && p != nil {
+		ev.Path = append(ev.Path, p.path...)
 	}
 	rec.mu.Lock()
 	rec.Steps = append(rec.Steps, ev)
